@@ -103,6 +103,8 @@ def body(chk):
                 big, small = V('heateq_%dd_%s_var' % (dim, st)), V('heateq_%dd_%s_const' % (dim, st))
                 a = coords + ([TT] if st == 'unsteady' else [])
                 pair(chk, val, 'heat-const-limit:%dd_%s' % (dim, st), big, 'eval_q_t', a, small, 'eval_q_t', a, ['k_1', 'k_2', 'cp_1', 'cp_2'], assume_syms=())
+    import c09
+    c09.add_type_purity(chk, ['heateq_', 'euler_1d', 'euler_2d', 'euler_3d', 'euler_transient_', 'navierstokes_2d', 'navierstokes_3d'], only='eval_q')
     chk.solve_all()
     # de-duplicate validation items
     seen, items = set(), []
